@@ -152,6 +152,8 @@ func c05Config(ctx *core.Ctx, goos, goarch string) {
 	c05ServerLoopErrors(ctx, r)
 	ctx.Rule("C05.R10", "one message cannot poison the next: server-side message handlers decode from and encode into transports allocated for that message", 2)
 	perMessageTransports(ctx, r, "C05.R10")
+	ctx.Rule("C05.R12", "what one connection left half-read never reaches the next: the frame decoder of a reader loop is built by that loop (not per frame, not kept in a field of the transport)", 1)
+	decoderPerLoop(ctx, r, "C05.R12")
 	// a goroutine that re-acquires a mutex it holds wedges itself and everyone behind that mutex
 	noDoubleAcquire(ctx, r, "C05.R7", "FBaseProcessor", "FBaseProcessorFunction", "fRegistryImpl", "fAdapterTransport")
 
